@@ -1045,14 +1045,14 @@ fn cmd_driver(args: &[String]) -> i32 {
             code = 1;
             let rdir = simcore::evidence::replay_dir();
             let _ = std::fs::create_dir_all(&rdir);
-            let rpath = rdir.join(format!("C17-{}.json", seed));
+            let rpath = rdir.join(format!("C17-{}{}.json", seed, simcore::evidence::replay_tag()));
             let mut file = json!({"property": "C17", "engine": "c17_reader", "seed": seed, "tier": tier, "how_to_replay": "/verif/check --replay <this file>"});
             file["case"] = v["case"].clone();
             file["violation"] = v["violation"].clone();
             file["run"] = v["run"].clone();
             let _ = write_json(&rpath, &file);
             // minimise, then make sure the minimised file still fails in a fresh process
-            let mpath = rdir.join(format!("C17-{}.min.json", seed));
+            let mpath = rdir.join(format!("C17-{}{}.min.json", seed, simcore::evidence::replay_tag()));
             let exe = std::env::current_exe().unwrap();
             // the minimiser gets two minutes; a case that hangs outside the simulated reader must not hang the check
             let ok = std::process::Command::new("timeout").arg("120").arg(&exe).arg("minimise").arg(&rpath).arg("--out").arg(&mpath).status().map(|s| s.code() == Some(0)).unwrap_or(false);
